@@ -372,7 +372,13 @@ class CropRun:
                 if op[2]:
                     os.remove(f)
             elif kind == "reload":
-                self.crop = self.new_crop()
+                self.reloads = getattr(self, "reloads", 0) + 1
+                if self.reloads % 3 == 0 and os.path.exists(os.path.join(self.location(), "xyz-settings.jbdmp")):
+                    # every third reload goes through load_crops(<the directory the crops live in>)
+                    from xyzpy.gen.cropping import load_crops
+                    self.crop = load_crops(self.parent)[self.name]
+                else:
+                    self.crop = self.new_crop()
             elif kind == "query":
                 pass
             elif kind == "setfail":
